@@ -18,22 +18,26 @@ from tools import a64table
 META = {
     'property_id': 'C17',
     'technique': 'Lean 4 theorems about a first-match model over the decoding table regenerated from the compiled arm64asm.instFormats '
-                 '(branch/address classes, for all words of each class and all behaviours of the uninterpreted argument decoders) '
-                 '+ trace validation of the real decoder against the model + exhaustive differential execution against the toolchain decoder',
+                 '(branch/address/emitted-instruction classes for all words of each class and all behaviours of the uninterpreted decoders; converse for B/BL; '
+                 'an undecodable quarter of the space; GetInnerFunc first-ness; GetFuncSize extent and cache) and about a mechanical Go-AST translation of '
+                 'decodeArg/canDecode (tools/a64args) + trace validation of the real decoder, the real argument decoders, the re-hosted func_arm64.go '
+                 '(GetInnerFunc, GetFuncSize incl. cache, PrintInstf) against the model + exhaustive differential execution against the toolchain decoder',
     'level': 'proof',
-    'level_text': 'Partial proof. Proved for all words and all oracles: B, BL, B.cond, CBZ, CBNZ, TBZ, TBNZ, ADR, ADRP, LDR/LDRSW(literal) '
-                  'words decode to that opcode with displacement SignExtend(imm:00) / SignExtend(immhi:immlo[:Zeros(12)]) (no earlier table '
-                  'row can take them: kernel decide over the regenerated table); a successful decode never has Op 0 and word 0 is undecodable; '
-                  'GetInnerFunc returns start+offset+displacement of the first qualifying B/BL; GetFuncSize returns the offset of the first '
-                  'undecodable word or prologue. NOT proved, only executed: that Decode and Inst.String() never panic on the other words and '
-                  'that decodability/opcode/PCRel agree with the reference there (2^32-word sweep in the thorough tier, exhaustive: true there; '
-                  'strided in quick).',
-    'level_note': 'Trusted: Lean kernel (propext, Classical.choice, Quot.sound), the table dumper (in-package probe printing the compiled table) '
-                  'and tools/a64table.py, the hand transcription of 22 argument decoders in Model/A64Dec.lean (validated on every run: the real '
-                  'decoder\'s chosen row/op/args must be reproduced by the model under the oracle that lets exactly that row through), the '
-                  'reference decoder (toolchain copy of x/arch arm64asm). Allowed difference: words with w&0xfff8f000 in {0xd5087000,0xd5088000} '
-                  '(AT/DC/IC/TLBI aliases of SYS, deliberately undecoded by goom). Nothing downstream can run: amd64 sandbox; func_arm64.go is '
-                  're-hosted as source on amd64.',
+    'level_text': 'Partial proof. Proved for all words and all oracles: 18 instruction classes (B, BL, B.cond, CBZ, CBNZ, TBZ, TBNZ, ADR, ADRP, LDR/LDRSW/PRFM literal incl. '
+                  'FP, MOVZ/MOV-alias, MOVK, LDR unsigned offset, BR, BLR, RET, NOP) decode to the Arm ARM opcode and displacement; conversely a result "B"/"BL" with '
+                  'a PCRel first argument comes only from a B/BL word and carries SignExtend(imm26:00); every word with op0=00xx (a quarter of the space) is rejected; '
+                  'no decode has Op 0; argument decoding (translated from the Go AST) has no panic outcome for any row and word; GetInnerFunc returns '
+                  'start+offset+displacement of the FIRST qualifying B/BL; GetFuncSize returns the first undecodable word / prologue and its cache returns the '
+                  'same extent again; the six words goom emits decode to MOV/MOVK/LDR/BR as intended. NOT proved, only executed: that Decode and Inst.String() '
+                  'never panic on the remaining words and that decodability/opcode/PCRel agree with the reference there (all 2^32 words in the thorough tier — '
+                  'an incomplete sweep is a machinery error, not a pass; strided + complete narrow rows in quick).',
+    'level_note': 'Trusted: Lean kernel (propext, Classical.choice, Quot.sound); the table dumper and tools/a64table.py; tools/a64args (Go AST -> Lean; its judgement '
+                  'which operations can panic is NOT checked by the kernel, it is validated per run against the real decodeArg/canDecode and, statically, '
+                  'definition by definition against the same translation of the reference); the hand transcription of 29 argument decoders, one predicate and '
+                  'the func_arm64.go scans; the reference decoder (toolchain copy of x/arch arm64asm, same upstream lineage as goom\'s copy: common-mode errors '
+                  'are visible only where an Arm ARM formula is stated independently). Allowed difference: words with w&0xfff8f000 in {0xd5087000,0xd5088000}. '
+                  'Not modelled: termination of the handle_bitmasks/bit_count loops, operand values other than those named, Inst.String(), concurrency of Decode '
+                  '(probed: first use from many goroutines in fresh processes). arm64 code cannot run here: func_arm64.go is re-hosted as source on amd64.',
 }
 
 M32 = 0xffffffff
@@ -148,7 +152,63 @@ def regen_args():
     return changed, summ
 
 
+# differences between goom's copy and the toolchain's decoder that were reviewed and are covered by the ordinary lanes; only NEW
+# differences direct the complete row sweeps below.  (translated definitions by Lean name; Go functions by "Recv.Name")
+BASE_TRANSL_DIFF = {'f_sys_op_4', 'f_at_sys_cr_system_cond', 'f_dc_sys_cr_system_cond', 'f_ic_sys_cr_system_cond', 'f_tlbi_sys_cr_system_cond',
+                    'arg_sysop_DC_SYS_CR_system', 'arg_sysop_TLBI_SYS_CR_system'}
+BASE_FUNC_DIFF = {'Cond.String', 'Imm.String', 'Imm64.String', 'MemExtend.String', 'MemImmediate.String', 'RegExtshiftAmount.String',
+                  'at_sys_cr_system_cond', 'dc_sys_cr_system_cond', 'ic_sys_cr_system_cond', 'tlbi_sys_cr_system_cond', 'sys_op_4', 'decodeArg'}
+
+
+def _lean_defs(path):
+    import re
+    out = {}
+    for m in re.finditer(r'^def (\S+) (.*?)(?=^\S|\Z)', open(path).read(), re.M | re.S):
+        seen = {}
+
+        def ren(mm):
+            return seen.setdefault(mm.group(0), f'_{len(seen)}')
+        out[m.group(1)] = re.sub(r'_\d+\b', ren, m.group(2))
+    return out
+
+
+def source_diff(rows):
+    """Translate the REFERENCE decoder with the same translator and compare, definition by definition (SSA names normalised), with the
+    translation of goom's; compare a content hash of every Go function of the two packages.  Returns the table rows whose argument
+    decoders / predicate / operand printing differ from the reference in a way not in the reviewed baseline — these rows are then
+    swept COMPLETELY — and a summary for the evidence.  A static comparison: it sees a change confined to a single word."""
+    exe = os.path.join(C.BUILD, 'a64args')
+    gl, gj = os.path.join(C.BUILD, 'A64Args.lean'), os.path.join(C.BUILD, 'a64args.goom.json')
+    rl, rj = os.path.join(C.BUILD, 'A64Args.ref.lean'), os.path.join(C.BUILD, 'a64args.ref.json')
+    rc1, o1, e1 = C.sh([exe, '-repo', C.REPO, '-out', gl, '-meta', gj])
+    rc2, o2, e2 = C.sh([exe, '-repo', C.REPO, '-dir', os.path.join(C.BUILD, 'ref', 'refarm64'), '-out', rl, '-meta', rj])
+    if rc1 != 0 or rc2 != 0:
+        return [], {'error': (e1 + e2)[-500:]}
+    g, r = _lean_defs(gl), _lean_defs(rl)
+    tdiff = sorted(n for n in g if (n.startswith('arg_') or n.startswith('f_')) and g[n] != r.get(n))
+    gm, rm = json.load(open(gj)), json.load(open(rj))
+    fdiff = sorted(k for k in gm['funcs'] if gm['funcs'][k] != rm['funcs'].get(k))
+    new_t = [n for n in tdiff if n not in BASE_TRANSL_DIFF]
+    new_f = [n for n in fdiff if n not in BASE_FUNC_DIFF]
+    # helpers that differ taint every definition that mentions them
+    tainted = set(new_t)
+    for h in [n for n in new_t if n.startswith('f_')]:
+        tainted |= {n for n, body in g.items() if h + ' ' in body or h + ')' in body}
+    kinds = {int(k) for k, v in gm['kinds'].items() if v['name'] in tainted}
+    conds = {n[2:] for n in tainted if n.startswith('f_') and n.endswith('_cond')}
+    types = {f.split('.')[0] for f in new_f if '.' in f}
+    kinds |= {int(k) for k, v in gm['kinds'].items() if any(t in types or t.lstrip('*') in types for t in v['types'])}
+    sel = [r_ for r_ in rows if any(k in kinds for k in r_['args']) or r_.get('cname') in conds]
+    sel.sort(key=lambda r_: bin(r_['mask']).count('1'), reverse=True)    # narrow rows first
+    same_cases = sum(1 for n in g if n.startswith('arg_') and g[n] == r.get(n))
+    same_conds = sum(1 for n in g if n.startswith('f_') and n.endswith('_cond') and g[n] == r.get(n))
+    return sel, {'translated_cases_identical_to_reference': same_cases, 'translated_predicates_identical_to_reference': same_conds,
+                 'translation_differs': tdiff, 'go_functions_differ': fdiff, 'new_vs_baseline': new_t + new_f,
+                 'rows_selected_for_complete_sweep': len(sel)}
+
+
 def build_probes():
+    refresh_reference()
     helpers = C.helper_pkgs()
     b1, err = C.overlay_build('c17-dec', 'internal/arch/arm64asm',
                               {'zz_verif_c17_test.go': os.path.join(C.HARNESS, 'c17', 'dec_probe_test.go')}, helpers, gcflags=None)
@@ -165,14 +225,59 @@ def build_probes():
     return b1, b2
 
 
+SCRUB = ('GOOM_DEBUG', 'GODEBUG', 'GOGC', 'GOMAXPROCS', 'GOTRACEBACK', 'GORACE')
+
+
+def run_probe(binary, test, ops_path, out_path, env=None, timeout=7200):
+    """C.run_probe with goom / Go runtime knobs removed from the environment (an odd environment must not change the verdict), a
+    generous timeout, and ONE retry when the process was killed or timed out (a crash that reproduces is reported, one that does
+    not is not)."""
+    saved = {k: os.environ.pop(k) for k in SCRUB if k in os.environ}
+    try:
+        last = None
+        for attempt in (1, 2):
+            try:
+                rc, log = C.run_probe(binary, test, ops_path, out_path, env=env, timeout=timeout)
+            except Exception as e:  # subprocess timeout
+                rc, log = -9, f'probe timed out / could not run: {e}'
+            if rc == 0:
+                return rc, log
+            last = (rc, log)
+            C.log(f'C17: probe {test} failed (rc={rc}), attempt {attempt}')
+        return last
+    finally:
+        os.environ.update(saved)
+
+
 def run_lines(binary, test, ops, tag):
     p = os.path.join(C.BUILD, tag + '.ops')
     open(p, 'w').write('\n'.join(ops) + '\n')
     outp = os.path.join(C.BUILD, tag + '.impl')
-    rc, log = C.run_probe(binary, test, p, outp)
+    rc, log = run_probe(binary, test, p, outp)
     if rc != 0:
-        raise C.Infra(f'probe {test} failed rc={rc}:\n{log[-2000:]}')
-    return C.read_indexed(outp, len(ops))
+        raise C.Infra(f'probe {test} failed twice rc={rc}:\n{log[-2000:]}')
+    res = C.read_indexed(outp, len(ops))
+    if ops and sum(1 for x in res if x is not None) < 0.9 * len(ops):   # floor: a lane that silently observed nothing is a machinery error
+        raise C.Infra(f'probe {test} produced {sum(1 for x in res if x is not None)} observations for {len(ops)} operations')
+    return res
+
+
+def refresh_reference():
+    """vlib.helper_pkgs copies the toolchain decoder only when the file is absent: after a toolchain change the copy in build/ref would
+    be stale or mixed.  Re-copy whatever differs from $GOROOT; record the toolchain in the evidence."""
+    srcd = os.path.join(C.goroot(), 'src/cmd/vendor/golang.org/x/arch/arm64/arm64asm')
+    dstd = os.path.join(C.BUILD, 'ref', 'refarm64')
+    os.makedirs(dstd, exist_ok=True)
+    n = 0
+    for f in sorted(os.listdir(srcd)):
+        if f.endswith('.go') and not f.endswith('_test.go'):
+            a = open(os.path.join(srcd, f), 'rb').read()
+            d = os.path.join(dstd, f)
+            if not os.path.exists(d) or open(d, 'rb').read() != a:
+                open(d, 'wb').write(a)
+                n += 1
+    rc, o, _ = C.sh(['go', 'version'], env=C.goenv())
+    return {'go': o.strip(), 'files_refreshed': n}
 
 
 def run_model(ops, tag):
@@ -347,15 +452,16 @@ def sweep_segments(tier, rng):
         return [(ph, 1 << 32, 16) for ph in order], 'all 2^32 words as 16 interleaved passes (stride 16, every phase)'
     st = 211
     segs = [(rng.below(st), 1 << 32, st)]
-    cst = 13
+    cst = 29
     for lo, hi in [(0x14000000, 0x18000000), (0x94000000, 0x98000000), (0x54000000, 0x55000000), (0x34000000, 0x38000000),
                    (0xb4000000, 0xb8000000)] + [(b << 24, (b + 1) << 24) for b in (0x10, 0x30, 0x50, 0x70, 0x90, 0xb0, 0xd0, 0xf0)] + \
-                  [(0x18000000, 0x19000000), (0x58000000, 0x59000000), (0x98000000, 0x99000000), (0xd5080000, 0xd5090000)]:
+                  [(0x18000000, 0x19000000), (0x58000000, 0x59000000), (0x98000000, 0x99000000), (0xd5080000, 0xd5090000)] + \
+                  [(0x1c000000, 0x1d000000), (0x5c000000, 0x5d000000), (0x9c000000, 0x9d000000), (0xd8000000, 0xd9000000)]:
         segs.append((lo + rng.below(cst), hi, cst if hi - lo > (1 << 16) else 1))
     return segs, f'whole space at stride {st} (seeded phase) + every branch/address class range at stride {cst} + the SYS space at stride 1'
 
 
-def run_sweep(binary, segs, strcmp, budget_s, workers=None):
+def run_sweep(binary, segs, strcmp, budget_s, workers=None, rows=None):
     outp = os.path.join(C.BUILD, 'c17.sweep.json')
     if os.path.exists(outp):
         os.remove(outp)
@@ -363,8 +469,10 @@ def run_sweep(binary, segs, strcmp, budget_s, workers=None):
            'VERIF_C17_BUDGET_S': str(budget_s)}
     if workers:
         env['VERIF_C17_WORKERS'] = str(workers)
+    if rows:
+        env['VERIF_C17_ROWS'] = ','.join(f'{m:#x}:{v:#x}' for m, v in rows)
     t0 = time.time()
-    rc, log = C.run_probe(binary, 'TestVerifC17Sweep', '/dev/null', outp, env=env, timeout=budget_s + 900)
+    rc, log = run_probe(binary, 'TestVerifC17Sweep', '/dev/null', outp, env=env, timeout=budget_s + 900)
     if rc != 0 or not os.path.exists(outp):
         raise C.Infra(f'sweep probe failed rc={rc}:\n{log[-2000:]}')
     res = json.load(open(outp))
@@ -431,6 +539,7 @@ def run(tier):
     lanes, nontrivial, rows_hit, refstate = {}, set(), set(), {}
     strdiff = 0
     if model is None:
+        proof['ok'] = False
         proof['failed'].append(('goomdrv', 'driver does not build: ' + derr[-500:]))
     for i, w in enumerate(wl):
         lanes[words[w]] = lanes.get(words[w], 0) + 1
@@ -501,46 +610,157 @@ def run(tier):
                 fdiffs.append((i, fmops[i], g, fmodel[i]))
 
     # ---- 2. scans of func_arm64.go (re-hosted) vs model vs the python statement of what they should return
-    defs, _ = run_model([f'c17.def {w:#010x}' for w in wl], 'c17.def')
-    plain, undec = [], []
-    if defs is not None:
-        for w, d in zip(wl, defs):
-            if d.startswith('def row=') and not any(w & m == v for m, v in CALL.values()) and refstate.get(w):
-                plain.append(w)
-            elif d == 'def err:unknown' and refstate.get(w) is False:
-                undec.append(w)
+    # word population: a seeded sample over ALL lanes (any instruction the reference decodes, B/BL excluded) and any word it rejects
+    refop = {}
+    for i, w in enumerate(wl):
+        so = split_obs(impl[i])
+        if so and so[1]['state'] == 'ok':
+            refop[w] = so[1].get('op')
+    cand = [w for w in wl if refstate.get(w) and not any(w & m == v for m, v in CALL.values()) and not allowed(w)]
+    und = [w for w in wl if refstate.get(w) is False and not allowed(w)]
+    plain = [cand[rng.below(len(cand))] for _ in range(4000)] if cand else []
+    undec = [und[rng.below(len(und))] for _ in range(500)] if und else []
     sops, simpl, smodel, sbad, sdiffs, unmod = [], [], None, [], [], 0
-    if plain and undec:
-        sops = gen_scans(tier, rng, plain[:4000], undec[:500])
-        simpl = run_lines(bins[1], 'TestVerifC17Func', sops, 'c17.scan')
-        smodel, derr2 = run_model(sops, 'c17.scan')
-        for i, op in enumerate(sops):
-            ws = scan_words(op)
-            # the prologue words / call words are not in `refstate` unless generated above: ask the line-mode probe lazily
-            want = spec_inner(ws, known_ok_full(ws, refstate, bins)) if op.startswith('c17.inner') else spec_size(ws, known_ok_full(ws, refstate, bins))
-            if simpl[i] != want:
-                sbad.append((op, simpl[i], want))
-            if smodel is not None:
-                if smodel[i] == 'unmodelled':
-                    unmod += 1
-                elif smodel[i] != simpl[i] and len(sdiffs) < 20:
-                    sdiffs.append((i, op, simpl[i], smodel[i]))
-        for op, got, want in sbad[:2]:
-            short = op if len(op) < 400 else op[:400] + ' …'
-            out.violation(f'{short}: scan returned {got}, the extent/wrapper rule gives {want}',
-                          {'kind': 'impl-oracle-scan', 'ops': [op], 'observed': got, 'expected': want})
+    pops, pimpl, pbad = [], [], []
+    if not (plain and undec):
+        raise C.Infra('scan lane has no words to build code sequences from (line mode produced no decodable / no rejected words)')
+    sops = gen_scans(tier, rng, plain, undec)
+    sops += [o.replace('c17.size ', 'c17.size2 ', 1) for o in sops if o.startswith('c17.size ')][: (300 if tier == 'quick' else 4000)]
+    # reference decodability of every word that occurs in a scan and was not seen in line mode (the synthesised B/BL words): ONE probe run
+    need = sorted({w for op in sops for w in scan_words(op)} - set(refstate))
+    if need:
+        for w, obs in zip(need, run_lines(bins[0], 'TestVerifC17', [f'c17.dec {w:#010x}' for w in need], 'c17.refq')):
+            so = split_obs(obs)
+            refstate[w] = bool(so and so[1]['state'] == 'ok')
+            if refstate[w]:
+                refop[w] = so[1].get('op')
+    ref_ok = lambda w: refstate.get(w, False)
+    simpl = run_lines(bins[1], 'TestVerifC17Func', sops, 'c17.scan')
+    smodel, derr2 = run_model(sops, 'c17.scan')
+    for i, op in enumerate(sops):
+        ws = scan_words(op)
+        if op.startswith('c17.inner'):
+            want = spec_inner(ws, ref_ok)
+        elif op.startswith('c17.size2'):
+            z = spec_size(ws, ref_ok)
+            want = f'{z} again={z.split("=")[1]} cached=True'.replace('True', 'true')
+        else:
+            want = spec_size(ws, ref_ok)
+        if simpl[i] != want:
+            sbad.append((op, simpl[i], want))
+        if smodel is not None:
+            if smodel[i] == 'unmodelled':
+                unmod += 1
+            elif smodel[i] != simpl[i] and len(sdiffs) < 20:
+                sdiffs.append((i, op, simpl[i], smodel[i]))
+    for op, got, want in sbad[:2]:
+        short = op if len(op) < 400 else op[:400] + ' …'
+        out.violation(f'{short}: scan returned {got}, the extent/wrapper rule gives {want}',
+                      {'kind': 'impl-oracle-scan', 'ops': [op], 'observed': got, 'expected': want})
+    if smodel is not None and sops and unmod > 0.2 * len(sops):
+        raise C.Infra(f'{unmod} of {len(sops)} scan operations are outside the model: the scan correspondence lane is not exercising anything')
+
+    # ---- 2b. PrintInstf (func_arm64.go:70, the one place goom prints a decoded instruction): byte strings of every length residue,
+    #          the lines it logs must name, per word, the reference's opcode and the word's bytes; never a panic
+    for _ in range(400 if tier == 'quick' else 6000):
+        n = 1 + rng.below(12)
+        ws = [plain[rng.below(len(plain))] if rng.below(5) else undec[rng.below(len(undec))] for _ in range(n)]
+        nb = max(0, 4 * n - rng.below(5)) if rng.below(3) else 4 * n
+        pops.append(f'c17.print {nb} ' + ' '.join(f'{w:#010x}' for w in ws))
+    pops += ['c17.print 0 0xd503201f', 'c17.print 3 0xd503201f', 'c17.print 16 0xd503201f 0xd503201f 0xd503201f 0xd503201f',
+             'c17.print 17 0xd503201f 0xd503201f 0xd503201f 0xd503201f 0xd65f03c0']
+    pimpl = run_lines(bins[1], 'TestVerifC17Func', pops, 'c17.print')
+    for op, got in zip(pops, pimpl):
+        t = op.split()
+        nb, ws = int(t[1]), [int(x, 16) for x in t[2:]]
+        exp = []
+        for pos in range(0, nb, 4):
+            w = ws[pos // 4]
+            if nb - pos < 4 or not ref_ok(w):
+                exp.append(f'{pos}=err')
+            else:
+                exp.append(f'{pos}={refop.get(w)}/{w.to_bytes(4, "little").hex()}')
+        want = 'printed:' + (','.join(exp) if exp else '-')
+        if got != want:
+            pbad.append((op, got, want))
+    for op, got, want in pbad[:2]:
+        out.violation(f'{op}: PrintInstf logged `{got}`, expected `{want}`', {'kind': 'impl-oracle-print', 'ops': [op], 'observed': got, 'expected': want})
+
+    # ---- 2c. Decode on fewer than four bytes
+    shops = [f'c17.short {w:#010x} {n}' for w in (FIXED[:12] + plain[:20]) for n in range(4)]
+    shimpl = run_lines(bins[0], 'TestVerifC17', shops, 'c17.short')
+    shmodel, _ = run_model(shops, 'c17.short')
+    shbad = [(op, a) for op, a in zip(shops, shimpl) if a != 'err:short']
+    for op, a in shbad[:2]:
+        out.violation(f'{op}: Decode on a truncated slice returned `{a}`, the property wants the truncation error', {'kind': 'impl-oracle', 'ops': [op], 'observed': a})
+    shdiffs = [(op, a, b) for op, a, b in zip(shops, shimpl, shmodel or []) if a != b]
+
+    # ---- 2d. the FIRST Decode calls of a fresh process made by many goroutines at once (lazy initialisation must not be observable)
+    byrow = {}
+    for i, w in enumerate(wl):
+        g = (impl[i] or '').split(' ## ')[0]
+        if g.startswith('row=') and not allowed(w):
+            byrow.setdefault(gfields(g)['row'], w)
+    fwords = list(byrow.values())
+    fops = [f'c17.dec {w:#010x}' for w in fwords]
+    fresh_runs, fresh_bad = (16 if tier == 'quick' else 200), []
+    fp = os.path.join(C.BUILD, 'c17.fresh.ops')
+    open(fp, 'w').write('\n'.join(fops) + '\n')
+    for k in range(fresh_runs):
+        fo = os.path.join(C.BUILD, 'c17.fresh.out')
+        rc, log = run_probe(bins[0], 'TestVerifC17Fresh', fp, fo, env={'VERIF_C17_G': str(16 + 16 * (k % 3))})
+        if rc != 0:
+            fresh_bad.append(f'process died: {log[-300:]}')
+            continue
+        line = (C.read_indexed(fo, 1)[0] or '')
+        if ' mismatches=0' not in line:
+            fresh_bad.append(line or 'no observation')
+    if fresh_bad:
+        out.violation('concurrent first use: ' + fresh_bad[0][:400], {'kind': 'fresh-concurrent', 'ops': fops, 'observed': fresh_bad[:5],
+                      'runs': fresh_runs, 'bad_runs': len(fresh_bad), 'how': 'python3 check.py C17 --replay <this file>  (runs 40 fresh processes)'})
 
     # ---- 3. sweep (execution, not proof)
     segs, seg_text = sweep_segments(tier, rng)
-    budget = int(os.environ.get('VERIF_C17_BUDGET_S', '1300' if tier == 'thorough' else '150'))
+    # quick: every table row whose encoding space is ≤ 2^17 words is enumerated COMPLETELY; so is every row whose argument decoders,
+    # predicate or operand printing differ from the reference's source in a way not in the reviewed baseline (static diff, see source_diff)
+    guided, srcsum = source_diff(rows)
+    rowsweep, rw_words = [], 0
+    if tier == 'quick':
+        for r in rows:
+            fb = 32 - bin(r['mask']).count('1')
+            if fb <= 17:
+                rowsweep.append((r['mask'], r['value']))
+                rw_words += 1 << fb
+    cap = (96 << 20) if tier == 'quick' else (1 << 40)
+    gskipped = 0
+    for r in guided:
+        fb = 32 - bin(r['mask']).count('1')
+        if (r['mask'], r['value']) in rowsweep:
+            continue
+        if tier == 'thorough':
+            continue            # the complete sweep covers it
+        if rw_words + (1 << fb) > cap:
+            gskipped += 1
+            continue
+        rowsweep.append((r['mask'], r['value']))
+        rw_words += 1 << fb
+    srcsum['guided_rows_not_swept_completely(budget)'] = gskipped
+    # the thorough tier is EXHAUSTIVE or it fails: no silent time cut-off (an explicit VERIF_C17_BUDGET_S turns it into a sample and the
+    # evidence then says so)
+    user_budget = os.environ.get('VERIF_C17_BUDGET_S')
+    budget = int(user_budget) if user_budget else (6 * 3600 if tier == 'thorough' else 1800)
     sweep_crash = None
     try:
-        sw = run_sweep(bins[0], segs, strcmp=(tier == 'quick'), budget_s=budget)
+        sw = run_sweep(bins[0], segs, strcmp=(tier == 'quick'), budget_s=budget, rows=rowsweep)
     except C.Infra as e:
         # the process died (a Go `fatal error`, e.g. concurrent map writes inside Decode, cannot be recovered): look for a concrete word
         # with a single worker on a thinner sweep; if that passes, the crash itself is reported (no failing input)
         sweep_crash = str(e)
         sw = run_sweep(bins[0], [(lo, hi, st * 16) for lo, hi, st in segs], strcmp=False, budget_s=budget, workers=1)
+    if not sw.get('Complete') and not user_budget and not sweep_crash:
+        raise C.Infra(f'the sweep did not complete ({sw["JobsDone"]} of {sw["JobsTotal"]} blocks in {budget} s): the tier would not cover what it advertises')
+    if sw['Words'] < (1 << 20):
+        raise C.Infra(f'the sweep executed only {sw["Words"]} words')
     sweep_bad = []
     for key, what in (('Panic', 'Decode or Inst.String() panicked'), ('DiffDecodable', 'decodability differs from the reference'),
                       ('DiffOp', 'opcode differs from the reference'), ('DiffPcrel', 'PC-relative displacement differs from the reference')):
@@ -581,6 +801,10 @@ def run(tier):
             out.violation(f'real decoder and the oracle-free model disagree on `{op}`: impl `{a}` model `{b}`',
                           {'kind': 'correspondence', 'ops': [ops[i]], 'impl': a, 'model': b, 'broken': 'A64Dec.decodeFull (table + translated decoders) vs arm64asm.Decode',
                            'n_disagreements_shown': len(fdiffs)}, no_failing_input=True)
+        elif shdiffs:
+            op, a, b = shdiffs[0]
+            out.violation(f'Decode on a short slice and the model disagree on `{op}`: impl `{a}` model `{b}`',
+                          {'kind': 'correspondence', 'ops': [op], 'impl': a, 'model': b, 'broken': 'A64Dec.decodeSrc vs arm64asm.Decode'}, no_failing_input=True)
         elif sdiffs:
             i, op, a, b = sdiffs[0]
             out.violation(f'func_arm64.go scan and model disagree: impl `{a}` model `{b}`',
@@ -591,7 +815,7 @@ def run(tier):
                           {'kind': 'proof', 'broken': proof['failed'], 'searched_words': len(wl) + sw['Words'], 'output': proof.get('output', '')[-3000:]},
                           no_failing_input=True)
 
-    exhaustive = tier == 'thorough' and sw.get('Complete', False) and sw['Words'] == 1 << 32
+    exhaustive = tier == 'thorough' and sw.get('Complete', False) and sw['Words'] >= 1 << 32 and not user_budget and not sweep_crash
     out.coverage = {
         'obligations': proof['obligations'], 'discharged': proof['discharged'],
         'checker_cmd': ' ; '.join(proof['cmds']),
@@ -601,7 +825,7 @@ def run(tier):
                          'reference: toolchain copy of golang.org/x/arch/arm64/arm64asm',
                          'NOT proved: totality of the ~290 other argument decoders, the canDecode predicates and Inst.String(): executed only (sweep)'],
         'theorems': proof['axioms'], 'proof_failures': proof['failed'],
-        'evaluations': len(wl) + len(sops) + len(tops) + sw['Words'],
+        'evaluations': len(wl) + len(sops) + len(tops) + len(pops) + len(shops) + fresh_runs * len(fops) + sw['Words'],
         'distinct_nontrivial': len(nontrivial) + sum(1 for x in simpl if x and x.startswith('target=')),
         'traces_validated_against_impl': (len(wl) - len(diffs) if model is not None else 0) + (len(wl) - len(fdiffs) if fmodel is not None else 0) +
                                          (len(tops) - tuntr - len(tdiffs) if tmodel is not None else 0) + (len(sops) - unmod - len(sdiffs) if smodel is not None else 0),
@@ -620,10 +844,15 @@ def run(tier):
             'translated_fn_ops(real decodeArg / canDecode vs Gen.A64Args)': {'ops': len(tops), 'arg_ops': len(aops), 'cond_ops': len(cops), 'kinds': len(kinds_used),
                                                                              'outcomes': tdist, 'untranslated_skipped': tuntr, 'disagreements': len(tdiffs)},
             'oracle_free_model_vs_real_decoder': {'words': len(wl), 'disagreements': len(fdiffs)},
+            'source_diff_vs_reference': srcsum,
+            'rows_swept_completely': {'rows': len(rowsweep), 'words': rw_words},
+            'print_ops(PrintInstf)': {'ops': len(pops), 'bad': len(pbad)}, 'short_src_ops': len(shops),
+            'fresh_process_concurrent_first_use': {'processes': fresh_runs, 'words_per_goroutine': len(fops), 'goroutines': '16/32/48', 'bad_runs': len(fresh_bad)},
+            'scan_word_population': {'decodable_candidates': len(cand), 'rejected_candidates': len(und)},
             'scan_ops': len(sops), 'scan_unmodelled(skipped in model comparison)': unmod,
             'scan_results': {k: sum(1 for x in simpl if x and x.split('=')[0] == k) for k in ('target', 'zero', 'err', 'size')},
             'sweep': {'segments': seg_text, 'words': sw['Words'], 'complete': sw.get('Complete'), 'fraction_of_2^32': round(sw['Words'] / (1 << 32), 4),
-                      'budget_note': 'the sweep stops starting new blocks after VERIF_C17_BUDGET_S seconds (default 1300 thorough); passes are interleaved so a partial sweep is uniform; exhaustive is reported only when complete', 'wall_s': sw['wall_s'], 'goom_decodable': sw['GoomOK'],
+                      'budget_note': 'no time cut-off by default: an incomplete sweep is a machinery error; an explicit VERIF_C17_BUDGET_S makes the thorough tier a sample (exhaustive: false)', 'wall_s': sw['wall_s'], 'goom_decodable': sw['GoomOK'],
                       'ref_decodable': sw['RefOK'], 'both_reject': sw['BothErr'], 'sys_alias_words(allowed difference)': sw['Allowed'],
                       'sys_alias_words_that_differ': sw['AllowedDiff'], 'words_with_pcrel': sw['PcrelWords'], 'pcrel_ops': sw['Ops'],
                       'string_compared': sw['StrCompared'], 'string_text_differs(not part of the property)': sw['StrDiff'],
@@ -656,6 +885,20 @@ def replay(body):
     bins = build_probes()
     ops = body.get('ops', [])
     rc = 0
+    if body.get('kind') == 'fresh-concurrent':
+        fp = os.path.join(C.BUILD, 'c17-replay.fresh.ops')
+        open(fp, 'w').write('\n'.join(ops) + '\n')
+        nbad = 0
+        for k in range(40):
+            fo = os.path.join(C.BUILD, 'c17-replay.fresh.out')
+            rcp, log = run_probe(bins[0], 'TestVerifC17Fresh', fp, fo, env={'VERIF_C17_G': str(16 + 16 * (k % 3))})
+            line = (C.read_indexed(fo, 1)[0] or '') if rcp == 0 else 'process died: ' + log[-200:]
+            if ' mismatches=0' not in line:
+                nbad += 1
+                if nbad <= 3:
+                    print('  ' + line[:400])
+        print(f'fresh-process concurrent first use: {nbad} of 40 processes saw a decode that differs from the sequential answer')
+        return 1 if nbad else 0
     wops = [o for o in ops if o.startswith('c17.dec')]
     if wops:
         ww = [int(o.split()[1], 16) for o in wops]
@@ -676,6 +919,13 @@ def replay(body):
             print(f'{op}\n  impl : {timpl[i]}\n  translation: {md}')
             if (timpl[i] or '').startswith('panic') or (md not in (None, 'untranslated') and md != timpl[i]):
                 rc = 1
+    pops = [o for o in ops if o.startswith('c17.print') or o.startswith('c17.short')]
+    if pops:
+        pi = run_lines(bins[1], 'TestVerifC17Func', pops, 'c17-replay.print') if pops[0].startswith('c17.print') else run_lines(bins[0], 'TestVerifC17', pops, 'c17-replay.short')
+        for op, got in zip(pops, pi):
+            print(f'{op[:300]}\n  impl : {got}\n  expected: {body.get("expected", "err:short")}')
+            if got != body.get('expected', 'err:short'):
+                rc = 1
     sops = [o for o in ops if o.startswith('c17.inner') or o.startswith('c17.size')]
     if sops:
         simpl = run_lines(bins[1], 'TestVerifC17Func', sops, 'c17-replay.scan')
@@ -684,6 +934,8 @@ def replay(body):
             ws = scan_words(op)
             ok = known_ok_full(ws, {}, bins)
             want = spec_inner(ws, ok) if op.startswith('c17.inner') else spec_size(ws, ok)
+            if op.startswith('c17.size2'):
+                want = f'{want} again={want.split("=")[1]} cached=true'
             print(f'{op[:300]}\n  impl : {simpl[i]}\n  model: {smodel[i] if smodel else None}\n  expected: {want}')
             if simpl[i] != want or (smodel and smodel[i] not in ('unmodelled', simpl[i])):
                 rc = 1
